@@ -128,9 +128,9 @@ func ruleRevOrder(c *Ctx) []Obligation {
 		return obs
 	}
 	dupOK := false
-	eachInstr(add, func(in ssa.Instruction) {
+	c.eachInstrDeep(add, func(in ssa.Instruction) {
 		l, ok := in.(*ssa.Lookup)
-		if !ok || !sameKey(l.Index, fullKey) {
+		if !ok || !sameKey(resolveArg(l.Index), fullKey) {
 			return
 		}
 		for _, r := range *l.Referrers() {
@@ -142,7 +142,11 @@ func ruleRevOrder(c *Ctx) []Obligation {
 							if isEq {
 								s = ifi.Block().Succs[1]
 							}
-							if blockReturnsError(s) && dominates(ifi, full) && dominates(ifi, bare) {
+							passedOn := ifi.Parent() == add
+							if h := helperOf(ifi.Parent()); !passedOn && h != nil {
+								passedOn = errorPropagated(h.site)
+							}
+							if blockReturnsError(s) && passedOn && dominates(ifi, full) && dominates(ifi, bare) {
 								dupOK = true
 							}
 						}
